@@ -164,6 +164,12 @@ func (s *Stream) reset() {
 	s.conn = nil
 	s.src.Reset()
 	s.dst.Reset()
+
+	// Frames queued for the previous connection must not be written to the next one.
+	for _, f := range s.pendingFrames {
+		s.releaseFrame(f)
+	}
+	s.pendingFrames = s.pendingFrames[:0]
 }
 
 // Returns the stream through which IO is done.
